@@ -259,7 +259,12 @@ func rangeLoopsAll(b *ana.Builder) []rangeLoop {
 		}
 		bd, ok := ana.Match("bin<<>(ind<+1>(0), len($c))", ce.Lit)
 		if !ok {
-			continue
+			// a counted loop over the index range [0, n): its collection is written upto(n)
+			nb, okN := ana.Match("bin<<>(ind<+1>(0), $n)", ce.Lit)
+			if !okN {
+				continue
+			}
+			bd = ana.Binds{"$c": &ana.Term{Op: "upto", Args: []*ana.Term{nb["$n"]}}}
 		}
 		blocks := map[*ssa.BasicBlock]bool{}
 		for _, e := range backs {
